@@ -402,10 +402,13 @@ class Node:
             cls: The class we're sweetening.
         """
         def matches(value_node: yaml.Node, default: Any) -> bool:
-            if value_node.tag == 'tag:yaml.org,2002:null':
+            # look at the kind of node too, a collection may have been
+            # given the tag of a scalar type explicitly
+            is_scalar = isinstance(value_node, yaml.ScalarNode)
+            if is_scalar and value_node.tag == 'tag:yaml.org,2002:null':
                 return default is None
 
-            if value_node.tag in (
+            if is_scalar and value_node.tag in (
                     'tag:yaml.org,2002:int', 'tag:yaml.org,2002:float',
                     'tag:yaml.org,2002:bool', 'tag:yaml.org,2002:str'):
                 if type(default) not in (int, float, bool, str):
